@@ -1,5 +1,5 @@
 From Coq Require Import ZArith Bool List.
-From KD Require Import Model.Values Model.Validate Model.Perm Model.Glob Model.Broker Model.BrokerRun Proofs.Broker Properties.C10.
+From KD Require Import Model.Values Model.Validate Model.Perm Model.Glob Model.Broker Model.BrokerRun Proofs.Broker Proofs.Interleave Properties.C10.
 Open Scope Z_scope.
 Check c10_exclusive_seq : forall h, claims_disjoint (st_asubs (run_history h)).
 Check c10_refused_registers_nothing : forall st p ids st' e,
@@ -11,3 +11,6 @@ Check c10_actuate_fails_when_owner_lost : forall st p id v a,
 Check c10_release_on_loss : forall now a,
   as_registered a = true -> (as_available a = false \/ expired (as_perms a) now = true) ->
   as_registered (cleanup_asub now a) = false.
+Check c10_exclusive_all_schedules : forall (ops : list conc_action) st0 ts st,
+  claims_disjoint (st_asubs st0) ->
+  ireach state (map sections ops, st0) (ts, st) -> claims_disjoint (st_asubs st).
